@@ -148,3 +148,39 @@ Proof.
   intro Hf. split; [intros acc left; apply get_cstr_max_loop_fuel; exact Hf|].
   split; [apply skip_cstr_loop_fuel; exact Hf|intro acc; apply get_cstr_loop_fuel; exact Hf].
 Qed.
+
+(* ---------- complements found by the hypothesis audit ---------------------------------------------- *)
+(* cap <= 0: GetStringWithMaxSize returns "" and touches nothing *)
+Lemma string_cap_nonpositive (enc : bool) cap r : (cap <= 0)%Z -> get_string_max enc cap r = (r, MOk []).
+Proof. intro H. unfold get_string_max. destruct (Z.leb_spec cap 0); [reflexivity|lia]. Qed.
+
+(* cap <= 0: the bounded ClassAd reader is exactly the unbounded one ("no limit") *)
+Lemma classad_cap_nonpositive parse (enc : bool) cap r : (cap <= 0)%Z -> get_classad parse enc cap r = get_classad parse enc 0 r.
+Proof.
+  intro H. unfold get_classad.
+  assert (B : forall t t' r0, budget_read enc cap t r0 = budget_read enc 0 t' r0).
+  { intros. unfold budget_read. destruct (Z.ltb_spec 0 cap); [lia|]. reflexivity. }
+  assert (C : forall t s, charge_total cap t s = t /\ charge_total 0 t s = t).
+  { intros. unfold charge_total. destruct (Z.ltb_spec 0 cap); [lia|]. split; reflexivity. }
+  assert (L : forall fuel left i t r0, ad_loop parse enc cap fuel left i t r0 = ad_loop parse enc 0 fuel left i t r0).
+  { induction fuel as [|f IH]; intros left i t r0; cbn [ad_loop]; [reflexivity|].
+    destruct (left <=? 0)%Z; [reflexivity|]. rewrite (B t t r0).
+    destruct (budget_read enc 0 t r0) as [r1 [s|e|]]; cbn [bind]; try reflexivity.
+    destruct (C t s) as (C1 & C2). rewrite C1, C2.
+    destruct (bytes_eqb s secret_marker).
+    - rewrite (B t t r1). destruct (budget_read enc 0 t r1) as [r2 [e|e|]]; cbn [bind]; try reflexivity.
+      destruct (C t e) as (D1 & D2). rewrite D1, D2. destruct (has_eq e && parse i e); [apply IH|reflexivity].
+    - cbn [bind]. destruct (has_eq s && parse i s); [apply IH|reflexivity]. }
+  destruct (get_int r) as [r0 [num|e|]]; cbn [bind]; try reflexivity.
+  rewrite L. destruct (ad_loop parse enc 0 (S (S (N.to_nat (avail r0)))) num 0 0 r0) as [r1 [t|e|]]; cbn [bind]; try reflexivity.
+  rewrite (B t t r1). destruct (budget_read enc 0 t r1) as [r2 [mt|e|]]; cbn [bind]; try reflexivity.
+  destruct (C t mt) as (C1 & C2). rewrite C1, C2. rewrite (B t t r2). reflexivity.
+Qed.
+
+(* the fuel Msg.get_cstr is defined with satisfies the hypothesis of string_fuel_sufficient *)
+Lemma fold_frames_bytes fs : fold_right (fun (f : mframe) a => lenN (fst f) + a) 0 fs = frames_bytes fs.
+Proof. induction fs as [|f fs IH]; cbn [fold_right frames_bytes]; [reflexivity|rewrite IH; reflexivity]. Qed.
+Lemma total_bytes_avail r : total_bytes r = avail r.
+Proof. unfold total_bytes, avail. rewrite fold_frames_bytes. reflexivity. Qed.
+Lemma get_cstr_fuel_independent r m : get_cstr_loop (S (S (N.to_nat (total_bytes r))) + m) r [] = get_cstr r.
+Proof. unfold get_cstr. rewrite total_bytes_avail. apply get_cstr_loop_fuel. lia. Qed.
